@@ -107,11 +107,27 @@ def run(ctx):
         reads = False
         for (i, j, p, rv, line) in b.assigns():
             if rv[0] == "bin" and rv[1] in ("Gt", "Ge", "Lt", "Le"):
-                for o in (rv[2], rv[3]):
-                    pl = op_place(o)
-                    if pl is not None and (place_has_field(pl, "recver::Recv", "max_stream_data") or
-                                           any(og[0] == "place" and place_has_field(og[1], "recver::Recv", "max_stream_data") for og in local_origins(b, o))):
-                        reads = True
+                sides = [rv[2], rv[3]]
+                lim = [k for k, o in enumerate(sides) if op_place(o) is not None and (
+                    place_has_field(op_place(o), "recver::Recv", "max_stream_data") or
+                    any(og[0] == "place" and place_has_field(og[1], "recver::Recv", "max_stream_data") for og in local_origins(b, o)))]
+                if not lim:
+                    continue
+                other = sides[1 - lim[0]]
+                # the compared quantity must be the END of the data (offset + length), not the offset alone
+                is_end = False
+                q = op_place(other)
+                if q is not None:
+                    for og in b.trace_local(q[0]):
+                        if og[0] == "place" and len(og[1]) == 2 and og[1][1] == ".0":
+                            if any(jj != "term" and rv2[0] == "bin" and rv2[1] == "AddWithOverflow" for (bb, jj, rv2) in b.defs_of(og[1][0])):
+                                is_end = True
+                        if og[0] == "rv" and og[1][0] == "bin" and og[1][1] in ("Add", "AddWithOverflow"):
+                            is_end = True
+                if is_end:
+                    reads = True
+                else:
+                    ctx.note("R2: %s compares max_stream_data with a value that is not offset + length (not counted as a limit check)" % b.short)
         if reads:
             chk.add(b.short)
     ctx.stats["R2.limit_checking_functions"] = sorted(chk)
